@@ -324,6 +324,7 @@ def leaf_kinds_needed(s, defs, acc=None, seen=None):
         acc.add('date')
     elif t == 'typedarray':
         acc.add('u8array')
+        acc.add('buffer')          # a subclass instance (Node's Buffer extends Uint8Array)
     elif t == 'object':
         for v in s['props'].values():
             leaf_kinds_needed(v, defs, acc, seen)
@@ -368,7 +369,7 @@ def mid_kinds_for(spec, defs, tier):
     if 'date' in feats and 'date' not in kinds:
         kinds += ['date']
     if 'typedarray' in feats:
-        kinds += ['u8array']
+        kinds += ['u8array', 'buffer']
     if 'array' in feats and tier != 'quick':
         kinds += ['sparse2']
     for k in sorted(leaf_kinds_needed(spec, defs)):
@@ -393,6 +394,8 @@ def kinds_for(spec, defs, tier):
         kinds += ['set1']
     if 'typedarray' in feats or 'any' in feats or tier != 'quick':
         kinds += ['u8array']
+    if 'typedarray' in feats:
+        kinds += ['buffer']
     if tier != 'quick':
         kinds += ['false', 'function', 'invaliddate', 'map0', 'set0', 'f64array']
     return kinds
